@@ -142,8 +142,8 @@ structure DistLaws (ops : DistOps D) : Prop where
 def Kept (flags : List Bool) (i : Nat) : Prop := flags[i]? = some true
 def Dropped (flags : List Bool) (i : Nat) : Prop := flags[i]? = some false
 
-theorem rdpShrink_id (path : List Pt) (b e : Nat) (flags : List Bool)
-    (h : e ≤ b ∨ nth path b ≠ nth path e) : rdpShrink path b e flags = (e, flags) := by
+theorem rdpShrink_id (path : List Pt) (b e : Nat)
+    (h : e ≤ b ∨ nth path b ≠ nth path e) : rdpShrink path b e = e := by
   cases e with
   | zero => rfl
   | succ e =>
@@ -153,6 +153,44 @@ theorem rdpShrink_id (path : List Pt) (b e : Nat) (flags : List Bool)
     cases h with
     | inl h => omega
     | inr h => exact h h2
+
+/-- the `while` loop at the head of `RDP`: the new `end` stays in `[begin, end]`, everything it skipped equals
+`path[begin]`, and `path[begin] ≠ path[end']` unless `end' = begin` -/
+theorem rdpShrink_spec (path : List Pt) (b e : Nat) (hbe : b ≤ e) :
+    b ≤ rdpShrink path b e ∧ rdpShrink path b e ≤ e ∧
+    (∀ j, rdpShrink path b e < j → j ≤ e → nth path j = nth path b) ∧
+    (b < rdpShrink path b e → nth path b ≠ nth path (rdpShrink path b e)) := by
+  induction e with
+  | zero =>
+    have e0 : rdpShrink path b 0 = 0 := rfl
+    rw [e0]
+    exact ⟨hbe, Nat.le_refl _, fun j h1 h2 => by omega, fun h => by omega⟩
+  | succ e ih =>
+    simp only [rdpShrink]
+    split
+    · rename_i hc
+      obtain ⟨h1, h2, h3, h4⟩ := ih (by omega)
+      refine ⟨h1, by omega, ?_, h4⟩
+      intro j hj1 hj2
+      by_cases hje : j = e + 1
+      · rw [hje]; exact hc.2.symm
+      · exact h3 j hj1 (by omega)
+    · rename_i hc
+      refine ⟨hbe, Nat.le_refl _, fun j h1 h2 => by omega, fun hb he => hc ⟨hb, he⟩⟩
+
+/-- setting a flag that is already set changes nothing -/
+theorem set_kept (flags : List Bool) (e : Nat) (h : flags[e]? = some true) : flags.set e true = flags := by
+  apply List.ext_getElem?
+  intro j
+  rw [List.getElem?_set]
+  split
+  · rename_i he; subst he
+    rw [h]; split
+    · rfl
+    · rename_i hl
+      have := (List.getElem?_eq_some_iff.mp h).1
+      exact absurd this hl
+  · rfl
 
 theorem rdpMax_fold (ops : DistOps D) (L : DistLaws ops) (d : Nat → D) (is : List Nat) (acc : Nat × D) :
     ops.le acc.2 (is.foldl (fun acc i => if ops.le (d i) acc.2 then acc else (i, d i)) acc).2 = true ∧
@@ -244,7 +282,7 @@ theorem getElem?_set_true (flags : List Bool) (idx j : Nat) (h : idx < flags.len
   rw [List.getElem?_set]; split <;> simp_all
 
 /-- Specification of one call `RDP(path, begin, end, epsSqrd, flags)` whose end points differ (so that the
-`while` loop at its head does nothing): flags outside `(begin, end)` are untouched and every vertex left
+`while` loop at its head does nothing and `flags[end] = true` re-sets a set flag): flags outside `(begin, end)` are untouched and every vertex left
 unflagged inside is within `eps` of the line through the nearest flagged vertices on either side. -/
 theorem rdp_spec (ops : DistOps D) (L : DistLaws ops) (path : List Pt) (eps : D)
     (hz : ops.le ops.zero eps = true) :
@@ -260,11 +298,11 @@ theorem rdp_spec (ops : DistOps D) (L : DistLaws ops) (path : List Pt) (eps : D)
   | succ fuel ih =>
     intro b e flags hfuel hbe hlen hKb hKe hmid hne
     simp only [rdp]
-    rw [rdpShrink_id path b e flags (by
+    rw [rdpShrink_id path b e (by
       by_cases h : b < e
       · exact Or.inr (hne h)
       · exact Or.inl (by omega))]
-    simp only []
+    rw [set_kept flags e hKe]
     obtain ⟨hall, hcase⟩ := rdpMax_spec ops L path b e
     generalize rdpMax ops path b e = m at hall hcase
     obtain ⟨idx, md⟩ := m
@@ -356,6 +394,77 @@ theorem rdp_spec (ops : DistOps D) (L : DistLaws ops) (path : List Pt) (eps : D)
           · obtain ⟨l, r, hl1, hl2, hr1, hr2, hkl, hkr, hbetween, hdist⟩ := hseg3 i (by omega) h2 hd
             exact ⟨l, r, by omega, hl2, hr1, hr2, hkl, hkr, hbetween, hdist⟩
 
+theorem rdp_shrink_eq (ops : DistOps D) (path : List Pt) (eps : D) (fuel b e : Nat) (flags : List Bool)
+    (hbe : b ≤ e) :
+    rdp ops path eps (fuel + 1) b e flags
+      = rdp ops path eps (fuel + 1) b (rdpShrink path b e) (flags.set (rdpShrink path b e) true) := by
+  obtain ⟨h1, _, _, h4⟩ := rdpShrink_spec path b e hbe
+  have hid : rdpShrink path b (rdpShrink path b e) = rdpShrink path b e :=
+    rdpShrink_id path b _ (by
+      by_cases h : b < rdpShrink path b e
+      · exact Or.inr (h4 h)
+      · exact Or.inl (by omega))
+  simp only [rdp, hid, List.set_set]
+
+/-- Specification of `RDP(path, begin, end, epsSqrd, flags)` for arbitrary end points (they may be equal points): the
+leading `while` loop moves `end` back to `end'` over copies of `path[begin]`, `flags[end']` is set, and the vertices it
+skipped are copies of `path[end]`, hence at distance 0 from the line through `path[end']`, `path[end]`. -/
+theorem rdp_spec_full (ops : DistOps D) (L : DistLaws ops) (path : List Pt) (eps : D)
+    (hz : ops.le ops.zero eps = true)
+    (fuel b e : Nat) (flags : List Bool) (hfuel : e - b < fuel) (hbe : b ≤ e) (hlen : e < flags.length)
+    (hKb : Kept flags b) (hKe : Kept flags e) (hmid : ∀ j, b < j → j < e → Dropped flags j) :
+    (rdp ops path eps fuel b e flags).length = flags.length ∧
+    (∀ j, (j ≤ b ∨ e ≤ j) → (rdp ops path eps fuel b e flags)[j]? = flags[j]?) ∧
+    SegOk ops path eps (rdp ops path eps fuel b e flags) b e := by
+  cases fuel with
+  | zero => omega
+  | succ fuel =>
+    rw [rdp_shrink_eq ops path eps fuel b e flags hbe]
+    obtain ⟨h1, h2, h3, h4⟩ := rdpShrink_spec path b e hbe
+    generalize rdpShrink path b e = e' at h1 h2 h3 h4
+    have he'len : e' < flags.length := by omega
+    have hset : ∀ j, (flags.set e' true)[j]? = if e' = j then some true else flags[j]? :=
+      fun j => getElem?_set_true flags e' j he'len
+    obtain ⟨g1, g2, g3⟩ := rdp_spec ops L path eps hz (fuel + 1) b e' (flags.set e' true) (by omega) h1
+      (by rw [List.length_set]; exact he'len)
+      (by unfold Kept; rw [hset]; split
+          · rfl
+          · exact hKb)
+      (by unfold Kept; rw [hset, if_pos rfl])
+      (by intro j hj1 hj2; unfold Dropped; rw [hset, if_neg (by omega)]; exact hmid j hj1 (by omega))
+      h4
+    refine ⟨by rw [g1, List.length_set], ?_, ?_⟩
+    · intro j hj
+      rw [g2 j (by omega), hset]
+      split
+      · rename_i he; subst he
+        cases hj with
+        | inl hj => have : e' = b := by omega
+                    subst this; exact hKb.symm
+        | inr hj => have : e' = e := by omega
+                    subst this; exact hKe.symm
+      · rfl
+    · intro i hbi hie hd
+      by_cases hi1 : i < e'
+      · obtain ⟨l, r, a1, a2, a3, a4, a5, a6, a7, a8⟩ := g3 i hbi hi1 hd
+        exact ⟨l, r, a1, a2, a3, by omega, a5, a6, a7, a8⟩
+      · by_cases hi2 : i = e'
+        · subst hi2
+          unfold Dropped at hd
+          rw [g2 i (Or.inr (Nat.le_refl _)), hset, if_pos rfl] at hd
+          exact absurd hd (by simp)
+        · -- `i` was skipped by the `while` loop: it is a copy of `path[begin] = path[end]`
+          have hie' : e' < i := by omega
+          refine ⟨e', e, h1, hie', hie, Nat.le_refl _, ?_, ?_, ?_, ?_⟩
+          · unfold Kept; rw [g2 e' (Or.inr (Nat.le_refl _)), hset, if_pos rfl]
+          · unfold Kept; rw [g2 e (Or.inr h2), hset, if_neg (by omega)]; exact hKe
+          · intro j hj1 hj2; unfold Dropped
+            rw [g2 j (Or.inr (by omega)), hset, if_neg (by omega)]; exact hmid j (by omega) hj2
+          · have e1 : nth path i = nth path e := by
+              rw [h3 i hie' (by omega), h3 e (by omega) (Nat.le_refl _)]
+            rw [e1]
+            exact L.trans _ _ _ (L.ends_zero (nth path e') (nth path e)).2 hz
+
 theorem selectFlags_head (k : Bool) (p : List Pt) (f : List Bool) (h : f[0]? = some k) :
     (selectFlags k p f).head? = p.head? := by
   cases p with
@@ -395,12 +504,14 @@ theorem selectFlags_getLast (k : Bool) (p : List Pt) (f : List Bool) (hl : f.len
         · rw [List.getLast?_cons, this, hne, List.getLast?_cons_cons, hne]; rfl
         · rw [this, List.getLast?_cons_cons]
 
-theorem initFlags_spec (n : Nat) (hn : 2 ≤ n) :
+theorem initFlags_spec (n : Nat) (hn : 1 ≤ n) :
     let f := ((List.replicate n false).set 0 true).set (n - 1) true
     f.length = n ∧ Kept f 0 ∧ Kept f (n - 1) ∧ (∀ j, 0 < j → j < n - 1 → Dropped f j) := by
   refine ⟨by simp, ?_, ?_, ?_⟩
   · unfold Kept; rw [List.getElem?_set, List.getElem?_set]; simp
-    rw [if_neg (by omega), if_pos (by omega)]
+    by_cases h0 : n - 1 = 0
+    · rw [if_pos h0, if_pos (by omega)]
+    · rw [if_neg h0, if_pos (by omega)]
   · unfold Kept; rw [List.getElem?_set]; simp; omega
   · intro j h1 h2; unfold Dropped
     rw [List.getElem?_set, List.getElem?_set, List.getElem?_replicate]
